@@ -116,6 +116,9 @@ impl<S: Stream + Unpin> Stream for MergeUnbounded<S> {
             let poll = Pin::new(&mut groups[*poll_next]).poll_next(cx);
             match poll {
                 Poll::Ready(Some(x)) => {
+                    // move on, so that a group that always has an item ready
+                    // cannot starve the groups behind it
+                    *poll_next += 1;
                     return Poll::Ready(Some(x));
                 }
                 Poll::Ready(None) => {
